@@ -346,17 +346,19 @@ type byteProvider interface {
 // that is, modifications to the returned buffer are visible to all readers.
 // If the caller wishes to modify the data, they should make a local copy.
 func (m *Message) data() ([]byte, error) {
+	// Check the declared size first: a reply too large to buffer arrives
+	// without a payload reader, and must not look like an empty message.
+	if m.payloadLen > MaxBufferedPayloadSz {
+		return nil, fmt.Errorf("message payload exceeds buffer limit: %d > %d",
+			m.payloadLen, MaxBufferedPayloadSz)
+	}
+
 	if m.payload == nil {
 		return nil, nil
 	}
 
 	if b, ok := m.payload.(byteProvider); ok {
 		return b.Bytes(), nil
-	}
-
-	if m.payloadLen > MaxBufferedPayloadSz {
-		return nil, fmt.Errorf("message payload exceeds buffer limit: %d > %d",
-			m.payloadLen, MaxBufferedPayloadSz)
 	}
 
 	data := make([]byte, m.payloadLen)
